@@ -140,6 +140,31 @@ func (c *Cluster) buildSynthDag(r *RNG) {
 	if template {
 		n = 4
 	}
+	// near-miss search: draw abstract histories until the reference model finds
+	// one with a fragile vote (see refmodel.go)
+	var searched []synthPlay
+	if !template && r.Bool(0.55) {
+		budget := []int{300, 1500, 4000}[r.Intn(3)]
+		for k := 0; k < budget; k++ {
+			cn := []int{4, 5, 5, 5, 6, 7}[r.Intn(6)]
+			var cand []synthPlay
+			if r.Bool(0.5) {
+				cand = gossipPlays(r, cn, 40+r.Intn(25*cn))
+			} else {
+				cand = synthPlays(r, cn, r.Range(6, 18))
+			}
+			d, _ := refFromPlays(cn, cand)
+			if f := d.computeFame(int(hg.COIN_ROUND_FREQ), nil); len(f.nears) > 0 {
+				n, searched = cn, cand
+				c.stats.probe("synthetic-near-miss-history")
+				c.stats.probeMax("synthetic-near-miss-validators", cn)
+				break
+			}
+		}
+		if searched == nil {
+			c.stats.probe("synthetic-near-miss-search-empty")
+		}
+	}
 	for i := 0; i < n; i++ {
 		c.addIdentity()
 	}
@@ -160,6 +185,8 @@ func (c *Cluster) buildSynthDag(r *RNG) {
 	if template {
 		plays = splitVotePlays(r)
 		c.stats.probe("synthetic-split-vote-template")
+	} else if searched != nil {
+		plays = searched
 	}
 	for _, p := range plays {
 		cr := c.nodes[p.creator]
@@ -187,6 +214,60 @@ func (c *Cluster) buildSynthDag(r *RNG) {
 		c.stats.EventsCreated++
 	}
 	c.stats.probe("synthetic-dag")
+	c.findNears()
+}
+
+// findNears runs the reference model over the record (static validator set)
+// and remembers the fragile votes as pairs of event hashes (y, z): y holds the
+// lopsided contrary vote, z really decides and does not descend from y.
+func (c *Cluster) findNears() {
+	cid := map[string]int{}
+	for i, m := range c.genesisSet {
+		cid[m.pubHex] = i
+	}
+	d := newRefDag(len(c.genesisSet))
+	ids := map[string]int{}
+	for _, e := range c.dag.order {
+		sp, op := -1, -1
+		if e.SelfP != "" {
+			sp = ids[e.SelfP]
+		}
+		if e.OtherP != "" {
+			op = ids[e.OtherP]
+		}
+		ids[e.Hash] = d.add(cid[e.Creator], sp, op, e.Hash)
+	}
+	f := d.computeFame(int(hg.COIN_ROUND_FREQ), nil)
+	c.refDag, c.refFame = d, f
+	for _, nr := range f.nears {
+		c.synthNears = append(c.synthNears, [2]string{d.hash[nr.y], d.hash[nr.z]})
+	}
+}
+
+// prioritised: a valid order that inserts the ancestors of target (and target)
+// first, everything else afterwards (a node that learns about target as early
+// as possible and about the rest late).
+func (d *DagRecord) prioritised(r *RNG, base []*DagEvent, target string) []*DagEvent {
+	first := map[string]bool{}
+	var add func(h string)
+	add = func(h string) {
+		e := d.events[h]
+		if e == nil || first[h] {
+			return
+		}
+		first[h] = true
+		add(e.SelfP)
+		add(e.OtherP)
+	}
+	add(target)
+	out := d.randomTopo(r, base, first)
+	rest := d.randomTopo(r, base, nil)
+	for _, e := range rest {
+		if !first[e.Hash] {
+			out = append(out, e)
+		}
+	}
+	return out
 }
 
 // delayedOrder: a valid order in which a few events are pushed as late as
